@@ -242,8 +242,9 @@ def check_relative(ctx, case):
     view = ts if kind == 'root' else make_view(ts, cb, chain, kind)
     prefixes = list(view.prefixes)
     exp_prefixes = [q + name + '_' for q in prefixes]
-    for i in case['attr_in']:
-        ts[exp_prefixes[i % len(prefixes)] + 'attr'] = 100 + i % len(prefixes)
+    for i in sorted(i % len(prefixes) for i in case['attr_in']):
+        if exp_prefixes[i] + 'attr' not in ts:          # (a view may list a prefix twice, e.g. capture block = stream)
+            ts[exp_prefixes[i] + 'attr'] = 100 + i
     ts['attr'] = -1                  # the relative view is exclusive: the global key must not be seen
     ts[name + '_other'] = 5
     rv = _relative_view(view, name)
